@@ -395,6 +395,21 @@ class PairSim(Sim):
         problems = self.delivery_clauses()
         a, b = self.eps["A"], self.eps["B"]
         mech = self.mechanism()
+        if not problems:
+            # Neither application ever logs out here and both ends run the library: a Logout on the wire means one
+            # end found the other's numbering / identity wrong and tore a recovered session down again - the state
+            # "Logon completed, quiescent" was then not "both ACTIVE" (the harness reconnects, so the end state
+            # alone would not show it).  0 occurrences in 58 000 runs of the unchanged tree.
+            for lab in ("A", "B"):
+                for (ev, cid, d, fr, dropped) in self.frames_written(lab):
+                    if d.get("35") == "5":
+                        why = "".join(c for c in str(d.get("58", "")) if not c.isdigit()).strip()[:40].replace(" ", "-")
+                        raise Violation(
+                            "session-torn-down",
+                            f"C07/session-torn-down-by-logout/{why or 'no-text'}",
+                            f"{lab} sent Logout 34={d.get('34')} text={d.get('58')!r} on connection {cid} although both "
+                            "ends are library endpoints and only the connection was ever broken",
+                        )
         if self.probes.get("reader_spins_on_stored_error"):
             raise Violation(
                 "not-recovered",
